@@ -101,8 +101,8 @@ def run(ctx):
             continue
         try:
             comps, how = c03._components(repo, ci, dim)
-        except fold.NotLiteral:
-            continue
+        except fold.NotLiteral as ex:
+            raise AnalysisError(f'eigen-components of {cq} can no longer be extracted ({ex})')
         d = dim or 2
         n_axes = int(round(np.log(ref.shape[0]) / np.log(d)))
         bad = None
